@@ -117,8 +117,19 @@ func c09B2(r *core.R) {
 	var capV, restartV []c02Viol
 	nData, nRestart, nReads := 0, 0, 0
 	var capPos token.Pos
+	seenBuild := map[ast.Node]bool{}
+	var checkBuild func(st int, b c09Build)
 	checkLits := func(st int, n ast.Node, fi *FuncInfo) {
 		for _, b := range c09Builds(m, f, n, fi) {
+			checkBuild(st, b)
+		}
+	}
+	checkBuild = func(st int, b c09Build) {
+		if seenBuild[b.src] {
+			return
+		}
+		seenBuild[b.src] = true
+		{
 			blob, off := b.blob, b.off
 			okBlob := c09AllDefs(m, blob, map[types.Object]bool{}, isBlobResult)
 			if st&inLoop != 0 {
@@ -145,7 +156,12 @@ func c09B2(r *core.R) {
 			}
 		}
 	}
-	emit := func(st int, pos token.Pos) {
+	emit := func(st int, snd *ast.SendStmt, fi *FuncInfo) {
+		pos := snd.Pos()
+		// pairs built elsewhere (in the spawner, handed over through a parameter or a pointer) are judged where they are sent
+		for _, sb := range c09SentBuilds(m, f, snd.Value, fi, map[types.Object]bool{}, 0) {
+			checkBuild(st, sb.c09Build)
+		}
 		if st&inLoop != 0 && st&read == 0 {
 			capV = append(capV, c02Viol{pos, "a pair is sent in an iteration of the read loop that did not read a block: its offset is the counter value after a block read earlier, so resuming there skips that block's objects"})
 		}
@@ -173,7 +189,7 @@ func c09B2(r *core.R) {
 		case "comm":
 			if s := p.sendClause(p.selectOf(ev), f.in); s != nil {
 				checkLits(st, s, ev.fi)
-				emit(st, s.Pos())
+				emit(st, s, ev.fi)
 			}
 		case "node", "return":
 			if ev.n == nil {
@@ -188,7 +204,7 @@ func c09B2(r *core.R) {
 			}
 			checkLits(st, ev.n, ev.fi)
 			if s, ok := ev.n.(*ast.SendStmt); ok && m.chanClass(nil, s.Chan) == f.in {
-				emit(st, s.Pos())
+				emit(st, s, ev.fi)
 			}
 		}
 		return st
